@@ -11,10 +11,12 @@ VALUE_LIMIT = 5
 VALUES = {'short_str': 'abc', 'long_str': 'abcdefghij', 'int': 7, 'bool': True, 'float': 1.5, 'bytes_ok': b'xyz',
           'bytes_bad': b'\xff\xfe', 'seq_same': ['a', 'b'], 'seq_none': ['a', None], 'seq_mixed': ['a', 1],
           'seq_badtype': [{'x': 1}], 'dict_value': {'a': 1}, 'none_value': None,
-          'zero_int': 0, 'false_bool': False, 'empty_str': '', 'empty_seq': []}
+          'zero_int': 0, 'false_bool': False, 'empty_str': '', 'empty_seq': [],
+          'seq_long': ['abcdefghij', 'b'], 'seq_bytes': [b'xyz', b'q'],
+          'tup_same': ('a', 'b'), 'tup_long': ('abcdefghij', 'b'), 'tup_bytes': (b'xyz', b'q')}
 STORED = {'short_str': 'abc', 'cut_str': 'abcde', 'int': 7, 'bool': True, 'float': 1.5, 'decoded_str': 'xyz',
           'tuple_same': ('a', 'b'), 'tuple_with_none': ('a', None), 'zero_int': 0, 'false_bool': False,
-          'empty_str': '', 'empty_tuple': ()}
+          'empty_str': '', 'empty_tuple': (), 'tuple_cut': ('abcde', 'b'), 'tuple_decoded': ('xyz', 'q')}
 STORED_CLASS = {repr((type(v).__name__, v)): k for k, v in STORED.items()}
 KEYS = {'empty_key': '', 'nonstr_key': 5}
 ATTR_INVS = ['WithinCapacity', 'OnlyCleanValues', 'KeysUnique', 'EveryDropCounted']
@@ -160,10 +162,148 @@ def resource_case(srcs):
                 os.environ[k] = v
 
 
+_deep_counter = [0]
+
+
+def deep_start_case(srcs):
+    """The same assembly done by the agent itself: Deep.start() with the environment and resource-provider plugins
+    (srcs[1], the code source, provides nothing). Returns (owner per key, schema, problems); the resource is read from
+    the configuration AND from the first poll request."""
+    import sys
+    import types
+    import deep.api.plugin as plugin_mod
+    from deep.api.deep import Deep
+    from deep.api.plugin import ResourceProvider
+    from deep.api.resource import Resource, SERVICE_NAME
+    from deep.config import ConfigService
+    from deep.config.tracepoint_config import TracepointConfigService
+    from deepproto.proto.poll.v1.poll_pb2 import PollResponse, ResponseType
+    from .. import fakes
+    real_key = {'svc': SERVICE_NAME, 'k1': 'k1', 'k2': 'k2'}
+    saved = {k: os.environ.get(k) for k in ('DEEP_RESOURCE_ATTRIBUTES', 'DEEP_SERVICE_NAME')}
+    saved_builtin = plugin_mod.DEEP_PLUGINS
+    plugin_mod.DEEP_PLUGINS = []
+    _deep_counter[0] += 1
+    m = types.ModuleType('vres_%d_%d' % (os.getpid(), _deep_counter[0]))
+    problems = []
+    d = None
+    try:
+        env = srcs[0]
+        pairs = ['%s=src1' % k for k in sorted(env['keys']) if k != 'svc']
+        if 'svc' in env['keys'] and env.get('blank'):
+            pairs.append('service.name=')
+        os.environ.pop('DEEP_RESOURCE_ATTRIBUTES', None)
+        os.environ.pop('DEEP_SERVICE_NAME', None)
+        if pairs:
+            os.environ['DEEP_RESOURCE_ATTRIBUTES'] = ','.join(pairs)
+        if 'svc' in env['keys'] and not env.get('blank'):
+            os.environ['DEEP_SERVICE_NAME'] = 'src1'
+        names = []
+        for i, p in enumerate(srcs[2:], 3):
+            def make(i=i, p=p):
+                class Provider(ResourceProvider):
+                    def resource(self):
+                        return Resource({real_key[k]: 'src%d' % i for k in p['keys']}, p['schema'] or None)
+                Provider.__name__ = 'P%d' % i
+                return Provider
+            setattr(m, 'P%d' % i, make())
+            names.append('%s.P%d' % (m.__name__, i))
+        sys.modules[m.__name__] = m
+        cfg = ConfigService({'SERVICE_URL': 'fake:1', 'SERVICE_SECURE': 'False', 'POLL_TIMER': 1000, 'NO_TRACE': True,
+                             'PLUGINS': names}, tracepoints=TracepointConfigService())
+        d = Deep(cfg)
+        chan = fakes.FakeChannel()
+        d.grpc.start = lambda: setattr(d.grpc, 'channel', chan)
+        d.grpc._metadata = []
+        polled = []
+
+        def poll(request):
+            polled.append({kv.key: kv.value.string_value for kv in request.resource.attributes})
+            return PollResponse(ts_nanos=1, current_hash='', response_type=ResponseType.NO_CHANGE)
+        chan.script('/poll', poll)
+        d.start()
+        res = cfg.resource
+        owner = {}
+        for k, rk in real_key.items():
+            v = res.attributes.get(rk)
+            if v is None:
+                owner[k] = 99
+            elif isinstance(v, str) and v.startswith('src'):
+                owner[k] = int(v[3:])
+            else:
+                owner[k] = 0
+        for must in ('telemetry.sdk.language', 'telemetry.sdk.name', 'telemetry.sdk.version', SERVICE_NAME):
+            if not res.attributes.get(must):
+                problems.append('mandatory key %s missing' % must)
+        if not polled:
+            problems.append('no poll request was sent by start()')
+        else:
+            for rk in real_key.values():
+                if res.attributes.get(rk) is not None and polled[0].get(rk) != res.attributes.get(rk):
+                    problems.append('resource in the poll request: %s=%r, configured %r' % (rk, polled[0].get(rk),
+                                                                                          res.attributes.get(rk)))
+        return owner, res.schema_url, problems
+    finally:
+        try:
+            if d is not None:
+                d.shutdown()
+        except BaseException:
+            pass
+        plugin_mod.DEEP_PLUGINS = saved_builtin
+        sys.modules.pop(m.__name__, None)
+        for k, v in saved.items():
+            if v is None:
+                os.environ.pop(k, None)
+            else:
+                os.environ[k] = v
+
+
+def deep_start_leg(c, quick):
+    cfg = dict(constants=dict(NPlugins=2, NoCode=True), invariants=['ServiceNameAlways', 'ServiceNameNotBlankAfterCreate',
+                                                                  'LaterWins'], deadlock=False)
+    sim = tlc.simulate('ResourceMerge', cfg, num=60 if quick else 2000, depth=12, seed=c.seed + 9)
+    c.transitions += sim.generated
+    seen = set()
+    shown = 0
+    for beh in sim.behaviours:
+        final = beh[-1][2]
+        if final['pc'] != 5:
+            continue
+        srcs = [{'keys': sorted(s['keys']), 'schema': s['schema'], 'blank': s['blank']} for s in to_json(final['srcs'])]
+        if str(srcs) in seen:
+            continue
+        seen.add(str(srcs))
+        out = {}
+
+        def body():
+            out['r'] = deep_start_case(srcs)
+        import threading
+        th = threading.Thread(target=body)       # start()/shutdown() touch the calling thread's trace hooks
+        th.start()
+        th.join(60)
+        if 'r' not in out:
+            raise tlc.MachineryError('Deep.start case did not finish')
+        owner, schema, problems = out['r']
+        exp = {k: final['acc']['owner'][k] for k in ('svc', 'k1', 'k2')}
+        if owner != exp:
+            problems.append('value sources %s, spec %s' % (owner, exp))
+        if (schema or '') != final['acc']['schema']:
+            problems.append('schema %r, spec %r' % (schema, final['acc']['schema']))
+        c.traces_validated += 1
+        c.note_case(key=('deep-start', str(srcs)), nontrivial=sum(len(s['keys']) for s in srcs[2:]) >= 1)
+        if problems:
+            path = c.save_replay({'direction': 'S2C', 'module': 'ResourceMerge', 'via': 'Deep.start', 'sources': srcs,
+                                  'problems': problems})
+            if c.violation('Deep.start with resource sources %s: %s' % (srcs, problems[:2]), path):
+                shown += 1
+                if shown >= 6:
+                    return
+
+
 def resource_leg(c, quick):
-    c.mc('ResourceMerge', dict(constants=dict(NPlugins=2), invariants=['ServiceNameAlways', 'ServiceNameNotBlankAfterCreate', 'LaterWins'],
+    c.mc('ResourceMerge', dict(constants=dict(NPlugins=2, NoCode=False), invariants=['ServiceNameAlways', 'ServiceNameNotBlankAfterCreate', 'LaterWins'],
                                deadlock=False), label='env, code, 2 plugins', must_cover=['Provide', 'MergeNext'])
-    sim = tlc.simulate('ResourceMerge', dict(constants=dict(NPlugins=2), invariants=['ServiceNameAlways', 'ServiceNameNotBlankAfterCreate', 'LaterWins'],
+    sim = tlc.simulate('ResourceMerge', dict(constants=dict(NPlugins=2, NoCode=False), invariants=['ServiceNameAlways', 'ServiceNameNotBlankAfterCreate', 'LaterWins'],
                                              deadlock=False), num=150 if quick else 4000, depth=12, seed=c.seed + 8)
     c.transitions += sim.generated
     seen = set()
@@ -206,6 +346,7 @@ def run(c):
                      'environment-provided attributes are given through DEEP_RESOURCE_ATTRIBUTES / DEEP_SERVICE_NAME']
     attributes_leg(c, rng, quick)
     resource_leg(c, quick)
+    deep_start_leg(c, quick)
 
 
 if __name__ == '__main__':
